@@ -10,7 +10,8 @@ RULE = ("Pipeline cases: 1-2 contigs (400-1200 bp), well separated variants of a
         "(60-350 bp, single or paired, soft clips, =/X CIGARs; boundaries never cut a variant, except that a sixth of the reads "
         "end or start inside the REF allele of a deletion/MNP their haplotype does not carry), depth 2-25 with "
         "--internal-downsampling drawn from 2..15 so that the cap binds; options --tag PS|HP, --only-snvs, --sample and "
-        "--chromosome subsets; in a quarter of the cases the reads are split over two alignment files with coinciding read names. Oracle: for every selected sample and every phase set of the output (decoded with pysam), "
+        "--chromosome subsets; in a quarter of the cases a VCF with the true phase of a random subset of the variants is a second phase "
+        "input (pseudo reads, preferred by read selection); in a quarter of the cases the reads are split over two alignment files with coinciding read names. Oracle: for every selected sample and every phase set of the output (decoded with pysam), "
         "the phased alleles equal the true haplotype pair or its swap, one choice per phase set; in the traced solver instances every "
         "read allele equals the allele of the haplotype the read was copied from, every read (pair) carries all heterozygous "
         "variants one of its alignments fully covers, and the optimal cost is 0. Non-trivial = at least "
@@ -30,6 +31,12 @@ def gen(draw):
             "chromosomes": draw(st.sampled_from([None, None] + [[c] for c in chroms])),
             "max_coverage": draw(st.sampled_from([2, 3, 4, 5, 8, 15, 15]))}
     case["opts"] = opts
+    # an additional phase input: a VCF carrying the true phase of a random subset of the variants (one set per sample and contig)
+    case["phased_vcf_input"] = draw(st.integers(0, 3)) == 0
+    if case["phased_vcf_input"]:
+        case["phased_vcf_subset"] = {s: {c["name"]: [vi for vi in range(len(case["variants"][c["name"]])) if draw(st.booleans())]
+                                         for c in case["contigs"]} for s in samples}
+        case["phased_vcf_enc_hp"] = draw(st.booleans())
     # the reads may arrive in two alignment files whose read names coincide (names need only be unique within a file)
     case["two_files"] = draw(st.integers(0, 3)) == 0
     # reads of a REF-carrying haplotype may end (after >= 2 bases) or start inside the REF allele of a deletion / MNP
@@ -181,8 +188,16 @@ class TruthPart:
             kw["samples"] = list(o["samples"])
         if o["chromosomes"]:
             kw["chromosomes"] = list(o["chromosomes"])
-        out, trace = P.run_phase(d, paths["vcf"], bams, reference=paths["ref"], tag=o["tag"], only_snvs=o["only_snvs"],
+        inputs = list(bams)
+        if case.get("phased_vcf_input"):
+            ph = {s: {cn: {vi: 7 for vi in vis} for cn, vis in per.items()} for s, per in case["phased_vcf_subset"].items()}
+            inputs.append(G.write_vcf(case, os.path.join(d, "prior_phase.vcf"), phased=ph))
+            ctx.label("phased-vcf-as-additional-input")
+        out, trace = P.run_phase(d, paths["vcf"], inputs, reference=paths["ref"], tag=o["tag"], only_snvs=o["only_snvs"],
                                  max_coverage=o["max_coverage"], **kw)
+        # pseudo reads made from the phased VCF are not reads of the BAM
+        for t in trace:
+            t["reads"] = [r for r in t["reads"] if r["source_id"] < len(bams)]
         if file_of:
             # give the solver's reads their generated names back: (file, name in that file) -> template
             back = {v: k for k, v in file_of.items()}
